@@ -147,6 +147,26 @@ theorem idempotent_same_order (hv : Valid N es ord) :
       rw [outEdges_get es _ e he]
       simp [newNode, List.getD_eq_getElem?_getD, List.getElem?_eq_getElem h2]
 
+/-! ### The node table of the pieces -/
+
+/-- **Copies keep time, population, individual, metadata row …**: every column written as
+`column[nodes_order]` has, in row `v`, the input value of the node `v` was copied from. -/
+theorem node_columns_copied {β : Type} [Inhabited β] (col : Array β) (o : Out) (v : Nat)
+    (hv : v < o.order.length) : (reorderCol col o.order)[v]? = some (aget col (orig o v)) :=
+  reorderCol_get col o v hv
+
+/-- **Flags**: row `v` carries the input flags of its original node, plus the split flag exactly when
+that node was split (all of its pieces, the leftmost one included). -/
+theorem split_flag_spec (bit : Nat) (flags : Array Nat) (hv : Valid N es ord) (hf : flags.size = N)
+    (v : Nat) (hlt : v < (splitDisjoint N excl es ord).order.length) :
+    (outFlags bit flags (splitDisjoint N excl es ord))[v]? =
+      some (if orig (splitDisjoint N excl es ord) v ∈ (splitDisjoint N excl es ord).split
+            then aget flags (orig (splitDisjoint N excl es ord) v) ||| bit
+            else aget flags (orig (splitDisjoint N excl es ord) v)) := by
+  unfold outFlags
+  rw [reorderCol_get _ _ v hlt, markSplit_get bit flags _
+    (fun j hj => by rw [hf]; exact (split_mem excl hv j hj).1)]
+
 /-! ### Mutations (`_relabel_mutations_node`)
 
 `insIdx` / `remIdx` are tskit's edge insertion / removal orders, `muts` the `(position, node)` pairs of
